@@ -1,5 +1,5 @@
 (* Algebra of the TBR analysis and design sides over Q (C05, C06, C07, C18). *)
-From Coq Require Import List ZArith QArith Qfield Lia Psatz Sorting.Permutation Setoid.
+From Coq Require Import List ZArith QArith Qfield Lia Lqa Qabs Sorting.Permutation Setoid.
 From MM Require Import model.TBRMath.
 Import ListNotations.
 Open Scope Q_scope.
